@@ -87,6 +87,19 @@ def lit_str(s, rng=None, quote=None):
     return Lit("str", s, quote + s + quote)
 
 
+def long_string(rng, tails=("",)):
+    """60..400 characters, mostly plain, with characters that need an escape in a Python literal sprinkled at random
+    offsets (a renderer that wraps, chunks or truncates long literals meets an escape at every cut point sooner or later)"""
+    n = rng.choice([60, 69, 70, 71, 72, 75, 79, 80, 100, 120, 140, 141, 200, 255, 256, 300, 400])
+    hot = ["\\", "'", '"', "\r", "\t", "\x00", "\x1b", "\u0085", "\u2028", "é", "😀", "{", "}", "%", "\\n", "\\'"]
+    out = []
+    while sum(len(x) for x in out) < n:
+        out.append(rng.choice(hot) if rng.random() < rng.choice([0.02, 0.1, 0.3]) else rng.choice("abcxyz0189 _-+()#:,"))
+    t = "".join(out)[:n]
+    tail = rng.choice(list(tails))
+    return t + tail
+
+
 def rand_int_lit(rng):
     r = rng.random()
     if r < 0.5:
@@ -288,6 +301,44 @@ def gen_program(rng, opts=None):
                 return ("id", rng.choice(c))
         return ("lit", gen_lit(tp))
 
+    def shaped_members(tp):
+        """membership tuples with structure that an "optimised" rendering could exploit: runs of consecutive
+        integers (ascending, descending, shuffled), arithmetic progressions, repeated members, members that
+        are each other's spelling in another type (7 and "7", 1.5 and "1.5", 1 and 1.0)"""
+        r = rng.random()
+        if tp == "str":
+            base = [rand_str(4) for _ in range(rng.randint(1, 3))]
+            if r < 0.4:
+                n = rng.choice([7, 0, 15, 100])
+                return [("lit", lit_str(str(n), rng)), ("lit", lit_int(n))] + [("lit", lit_str(b, rng)) for b in base[:1]]
+            if r < 0.7:
+                return [("lit", lit_str(b, rng)) for b in base + base[:1]]
+            return [("lit", lit_str(b, rng)) for b in sorted(base)] + [("lit", lit_str(base[0].upper(), rng))]
+        start = rng.choice([0, 1, 2, -2, 8, rng.randint(-50, 50)])
+        k = rng.randint(3, 6)
+        run = list(range(start, start + k))
+        if r < 0.35:
+            pass
+        elif r < 0.45:
+            run.reverse()
+        elif r < 0.55:
+            rng.shuffle(run)
+        elif r < 0.65:
+            run = [start + 2 * i for i in range(k)]
+        elif r < 0.75:
+            run = run + run[:1]
+        elif r < 0.9:
+            n = rng.choice(run)
+            twin = [("lit", lit_str(str(n), rng)), ("lit", lit_int(n))]
+            rng.shuffle(twin)
+            return twin + [("lit", lit_int(x)) for x in run[:2] if x != n]
+        else:
+            x = rng.choice([1.5, 2.0, 0.5, 7.0])
+            twin = [("lit", lit_float(repr(x))), ("lit", lit_str(repr(x), rng)), ("lit", lit_int(int(x)))]
+            rng.shuffle(twin)
+            return twin
+        return [("lit", lit_int(x)) for x in run]
+
     def gen_cmp():
         f = rng.choice(list(fields))
         tp = fields[f]
@@ -296,6 +347,8 @@ def gen_program(rng, opts=None):
             if tp == "str" and rng.random() < 0.3:
                 # substring test
                 rhs = ("lit", lit_str(rand_str(10), rng))
+            elif rng.random() < 0.25:
+                rhs = ("tuple", shaped_members(tp))
             else:
                 k = rng.randint(1, 4)
                 members = []
@@ -774,8 +827,11 @@ def gen_env(prog, rng):
         if lits and rng.random() < 0.75:
             lit = rng.choice(lits)
             cands = neighbours(lit, rng)
-            # keep type-compatible with the field
-            if tp == "str":
+            kinds = {l.kind == "str" for l in lits}
+            # keep type-compatible with the field (a field compared with both strings and numbers takes both)
+            if len(kinds) == 2:
+                pass
+            elif tp == "str":
                 cands = [c for c in cands if isinstance(c, str)]
             elif tp in ("int", "float", "num"):
                 cands = [c for c in cands if isinstance(c, (int, float)) and not isinstance(c, bool)]
